@@ -126,11 +126,11 @@ Cases ==
   \cup [g : {"strseq"}, r : {"", "strings", "array3", "drop"}, er : {"", "drop"}]
   \* membership: every sequence representation x every width of the needle
   \cup [g : {"member"}, r : {"", "ints", "int64s", "int8s", "float64s", "array3", "drop"}, xr : 1..(Len(IntWidths) + 2), xv : {2, 5}]
-  \cup [g : {"map"}, r : {"", "mapint", "mapslice", "drop", "ptr"}, er : {"", "drop", "int32", "uint8"}]
+  \cup [g : {"map"}, r : {"", "mapint", "mapslice", "drop", "ptr", "ptrmapslice", "ptrptr"}, er : {"", "drop", "int32", "uint8"}]
   \* a map with a size key that holds nil: the key wins over the entry count, in every representation
-  \cup [g : {"mapsz"}, r : {"", "mapslice", "drop", "ptr", "anystrkeys"}]
+  \cup [g : {"mapsz"}, r : {"", "mapslice", "drop", "ptr", "anystrkeys", "ptrmapslice"}]
   \cup [g : {"bytes"}, r : {"", "bytes", "drop", "ptr"}]
-  \cup [g : {"ptr"}, r : {"", "ptr"}, mr : {"", "ptr"}]
+  \cup [g : {"ptr"}, r : {"", "ptr", "ptrptr"}, mr : {"", "ptr", "ptrptr"}]
   \cup [g : {"drop"}, bits : IF Full THEN 0..511 ELSE {0, 511} \cup {2^i : i \in 0..8} \cup {511 - 2^i : i \in 0..8}]
 
 Bt(b, i) == (b \div (2^(i - 1))) % 2 = 1
